@@ -45,7 +45,7 @@ func (w *aworld) bindNew() *lease {
 // whereIs: the connection (index in w.clients) whose upstream end received the request of l
 func (w *aworld) whereIs(l *lease) int {
 	found := -1
-	waitFor(500*time.Millisecond, func() bool {
+	waitFor(20*time.Second, func() bool {
 		for _, c := range w.clients {
 			if c.up == nil {
 				continue
@@ -160,7 +160,7 @@ func runBind(n int) *bindRes {
 			w.connClose(c, "fin")
 		}
 	}
-	waitFor(200*time.Millisecond, func() bool {
+	waitFor(20*time.Second, func() bool {
 		return w.host.HostStats().UpstreamConnectionActive.Count() == 0 && w.host.HostStats().UpstreamRequestActive.Count() == 0
 	})
 	if g, q := w.host.HostStats().UpstreamConnectionActive.Count(), w.host.HostStats().UpstreamRequestActive.Count(); g != 0 || q != 0 {
